@@ -132,4 +132,15 @@ theorem members_always_valid (env : Env)
   | nil => intro s hs; simpa [run]
   | cons op ops ih => intro s hs; simp only [run]; exact ih _ (members_valid_step env hnv s op hs)
 
+/-- **the code is the model (HTTP mapping)**: with the `except` tables as translated from /repo
+    on this run, an `InvalidFileContents` of the store is answered with the
+    `valid-calendar-data` precondition on every path a write can take -/
+theorem code_maps_invalid_data :
+    Tie.answerTo Generated.exception_bases Generated.set_body_raises Generated.put_update_answers "InvalidFileContents"
+      = .refused "valid-calendar-data" ∧
+    Tie.answerTo Generated.exception_bases Generated.create_member_raises Generated.put_create_answers "InvalidFileContents"
+      = .refused "valid-calendar-data" ∧
+    Tie.answerTo Generated.exception_bases Generated.create_member_raises Generated.post_answers "InvalidFileContents"
+      = .refused "valid-calendar-data" := ⟨rfl, rfl, rfl⟩
+
 end Xandikos.Theorems.C14
